@@ -8,6 +8,7 @@ lines pull items out of the repository source as text and annotate them:
   //@struct file=src/x.rs name=NAME                  copy a struct (X1: attributes, docs, #[br(temp)] fields dropped)
   //@fn file=src/x.rs name=NAME [impl=REGEX] [nth=K] copy a function and annotate it, until //@end:
       //@ret NAME                    name the result            (X2)
+      //@vis pub(crate)              rewrite the visibility qualifier of the extracted copy (X1: annotation only)
       //@sig :: TEXT                 requires/ensures clauses   (X2)
       //@top :: TEXT                 inserted at body start     (X3; ghost lets / proof blocks)
       //@tail :: TEXT                inserted before the tail expression (or at body end)
@@ -96,6 +97,14 @@ class FnSplice:
         for kind, args, txt in self.directives:
             if kind == "ret":
                 ret_name = args[0]
+            elif kind == "vis":
+                # visibility qualifier of the extracted copy only (Verus: contracts of `pub` items may not mention private specs)
+                vm = re.match(r"pub(\s*\([^)]*\))?\s+", m)
+                newvis = " ".join(args)
+                if vm:
+                    repl.append((0, vm.end(), newvis + " "))
+                else:
+                    ins.append((0, 0, newvis + " "))
             elif kind == "sig":
                 add_ins(bo, "\n    " + txt + "\n")
             elif kind == "top":
